@@ -25,6 +25,7 @@ warnings.filterwarnings('ignore')
 import logging  # noqa: E402
 
 logging.getLogger().setLevel(logging.ERROR)
+logging.getLogger('cache').setLevel(logging.CRITICAL)
 
 from tcverif.core import Ctx, main_guard  # noqa: E402
 
